@@ -711,7 +711,10 @@ theorem C17_beta_scalar_and_bad {α} (nets : List String) (v : α) :
 example :
     genResolve ["randomnet", "mfnet"] (.dict [("random", .scalar 1), ("MFNet", .pair 2 3)] : Beta Nat)
       = .ok [("random", some (1, 1)), ("mf", some (2, 3))] ∧
-    genResolve ["randomnet"] (.dict [("random", .scalar 1), ("mf", .scalar 2)] : Beta Nat) = .error .value ∧
+    genResolve ["randomnet"] (.dict [("random", .scalar 1), ("mf", .scalar 2)] : Beta Nat) = .error .value := by
+  decide +kernel
+
+example :
     genResolve ["randomnet"] (.dict [("randomnet", .scalar 1), ("randomm", .scalar 2)] : Beta Nat) = .error .value ∧
     genResolve ["randomnet", "mfnet"] (.dict [("mf", .scalar 2)] : Beta Nat) = .error .value := by
   decide +kernel
